@@ -163,7 +163,13 @@ func (s *Server) ServeFileTransfers(ctx context.Context, ln net.Listener) error 
 	for {
 		conn, err := ln.Accept()
 		if err != nil {
-			return err
+			// A closed listener will never accept again.  Any other error (e.g. running out of file descriptors
+			// while many connections are open) is transient: keep serving, as Serve does for the control port.
+			if errors.Is(err, net.ErrClosed) {
+				return err
+			}
+			s.Logger.Error("Error accepting file transfer connection", "err", err)
+			continue
 		}
 
 		go func() {
